@@ -85,16 +85,16 @@ theorem varsNew_sizes (n m : Nat) :
 /-- [S] **the length invariant of the iteration** (what C04's `Shapes` states about `variables`,
 here from the mere success of `new` and `solve()`): after `DefaultSolver::new` and a `solve()`,
 `variables.x/s/z` — the vectors `solution.post_process` un-scales — still have the lengths
-`n, m, m` of the INTERNAL problem. -/
+`n, m, m` of the INTERNAL problem; the data is the data `new` built with the two norm caches filled. -/
 theorem new_solve_variables_sized {P : Csc α} {q : Array α} {A : Csc α} {b : Array α}
     {cones : List (ConeT α)} {st0 st : Settings α} {perm : Array Nat} {S : Solver α} {r : SolveResult α}
     (hnew : Solver.new P q A b cones st0 perm = .ok S) (hr : S.solve st = .ok r) :
-    r.S.st.data = S.st.data ∧ r.S.st.variables.x.size = S.st.data.n
+    fillNorms S.st.data = .ok r.S.st.data ∧ r.S.st.variables.x.size = S.st.data.n
       ∧ r.S.st.variables.s.size = S.st.data.m ∧ r.S.st.variables.z.size = S.st.data.m := by
   obtain ⟨d0, hA⟩ := solverNew_anatomy hnew
   have hsh := solve_sameShape hr hA.conesOk
   obtain ⟨v1, v2, v3⟩ := varsNew_sizes (α := α) S.st.data.n S.st.data.m
-  refine ⟨hsh.data.symm, ?_, ?_, ?_⟩
+  refine ⟨solve_data hr, ?_, ?_, ?_⟩
   · rw [← hsh.variables.x, hA.variables]; exact v1
   · rw [← hsh.variables.s, hA.variables]; exact v2
   · rw [← hsh.variables.z, hA.variables]; exact v3
